@@ -13,6 +13,7 @@
 #include <lp/lp.h>
 #include <mm/buddy/buddy.h>
 #include <mm/buddy/ckpt.h>
+#include <verif_hooks.h>
 
 #include <errno.h>
 
@@ -186,6 +187,7 @@ array_count_t model_allocator_checkpoint_restore(struct mm_state *self, array_co
 
 	struct mm_checkpoint *ckp = array_get_at(self->logs, i).c;
 	self->full_ckpt_size = ckp->ckpt_size;
+	VH(VH_MM_RESTORE, self, ref_i, array_get_at(self->logs, i).ref_i);
 	const struct buddy_checkpoint *buddy_ckp = (struct buddy_checkpoint *)ckp->chkps;
 
 	array_count_t k = array_count(self->buddies);
@@ -231,5 +233,6 @@ array_count_t model_allocator_fossil_lp_collect(struct mm_state *self, array_cou
 		mm_free(array_get_at(self->logs, j).c);
 
 	array_truncate_first(self->logs, log_i);
+	VH(VH_MM_FOSSIL, self, tgt_ref_i, ref_i);
 	return ref_i;
 }
